@@ -424,13 +424,6 @@ def solve (p : Program) : Nat → List Summ → List Summ
 def Program.summaries (p : Program) : List Summ :=
   solve p (p.fns.length + 1) (List.replicate p.fns.length Summ.bot)
 
-/-- `S` is a post-fixpoint: every body, analysed under `S`, stays below its own entry. -/
-def consistentB (p : Program) (S : List Summ) : Bool :=
-  (List.range p.fns.length).all fun f =>
-    match p.fns[f]? with
-    | none => true
-    | some fn => (bodySumm S p.keyFn fn).leB (getE Summ.bot S f)
-
 /-- what is demanded of function `f` with summary `sm` -/
 def fnOK (fn : Fn) (sm : Summ) : Bool :=
   sm.ok
@@ -444,12 +437,16 @@ def fnOK (fn : Fn) (sm : Summ) : Bool :=
   -- ... `cpub`: and not of the argument objects themselves either
   && (!fn.cpub || sm.mutC.all (fun a => a % 2 == 0))
 
+/-- function `f` under the summary table `S`: its body, analysed under `S`, stays below its
+own entry (so `S` is a post-fixpoint at `f`), and the entry meets the demands on `f` -/
+def checkFn (p : Program) (S : List Summ) (f : Nat) : Bool :=
+  match p.fns[f]? with
+  | none => true
+  | some fn => (bodySumm S p.keyFn fn).leB (getE Summ.bot S f) && fnOK fn (getE Summ.bot S f)
+
+/-- the check, given a summary table (any table: soundness does not depend on how it was found) -/
 def checkWith (p : Program) (S : List Summ) : Bool :=
-  consistentB p S &&
-  (List.range p.fns.length).all fun f =>
-    match p.fns[f]? with
-    | none => true
-    | some fn => fnOK fn (getE Summ.bot S f)
+  (List.range p.fns.length).all (checkFn p S)
 
 def aliasCheck (p : Program) : Bool := checkWith p p.summaries
 
@@ -460,5 +457,37 @@ def failing (p : Program) : List Nat :=
     match p.fns[f]? with
     | none => false
     | some fn => !(fnOK fn (getE Summ.bot S f))
+
+/-! ## a user session: the heap between requests -/
+
+/-- what a user does with an `AurelCore` / the module functions between and by requests -/
+inductive Step where
+  /-- creates an array / list / dict of his own -/
+  | alloc
+  /-- hands an object to the library: `rel.data[k] = v`, `AurelCore(fd, …)`, `fd = FiniteDifference(…)` -/
+  | put (k : Key) (v : Val)
+  /-- calls the public function `f` (a description key via `rel["k"]`, a helper, `over_time`, `save_data` …) -/
+  | req (f : FnId) (args : List Val) (fuel : Nat) (ch : List Bool)
+
+def runStep (p : Program) (h : Heap) : Step → Option Heap
+  | .alloc => some { h with next := h.next + 1 }
+  | .put k v => some { h with cache := (k, v) :: h.cache }
+  | .req f args fuel ch =>
+    match request p fuel f args h ch with
+    | none => none
+    | some (_, h') => some h'
+
+def run (p : Program) : Heap → List Step → Option Heap
+  | h, [] => some h
+  | h, s :: l =>
+    match runStep p h s with
+    | none => none
+    | some h1 => run p h1 l
+
+/-- every request of the history addresses a public function -/
+def publicOnly (p : Program) : List Step → Prop
+  | [] => True
+  | .req f _ _ _ :: l => (∃ fn, p.fns[f]? = some fn ∧ fn.pub = true) ∧ publicOnly p l
+  | _ :: l => publicOnly p l
 
 end AurelVerif.Heap
